@@ -82,7 +82,7 @@ fn is_first_of_file(cs: &ConfStream, li: usize, pi: usize) -> bool {
     pi == 0 && cs.stream.order.first() == Some(&li)
 }
 
-pub const N_ENTRIES: usize = 48;
+pub const N_ENTRIES: usize = 49;
 
 /// apply catalogue entry `e` ; None if not applicable to this stream
 pub fn apply_fault(e: usize, t: &mut Tape, cs: &mut ConfStream) -> Option<Fault> {
@@ -501,6 +501,9 @@ pub fn apply_fault(e: usize, t: &mut Tape, cs: &mut ConfStream) -> Option<Fault>
                 }
             }
         }
+        // FEE ID changed inside an HBF (pages counter != 0): only the fiber-uplink bits 9:8, which every value of is legal,
+        // so the sanity check stays silent and the link keeps its validator (stave mode dispatches by FEE ID: not active there)
+        48 => rdh_fault!("running:fee_changed_in_hbf", |_l: usize, pi: usize, p: &Packet| pi >= 2 && p.rdh.pages_counter != 0, [Mode::All, Mode::AllIts], true, ["11"], "uplink bits 9:8", |r, t| { r.fee_id ^= 0x100 << t.below(2); }),
         _ => None,
     }
 }
